@@ -23,7 +23,9 @@ import (
 	"github.com/openGemini/openGemini/lib/util/lifted/vm/protoparser/influx"
 )
 
-func newProcessor(inSchema, outSchema record.Schemas, exprOpt []hybridqp.ExprOptions) (CoProcessor, bool, bool) {
+// newProcessor builds the series-level routines. The first / last reducers are positional (first / last ARRIVING
+// value); with descending the rows arrive newest first, so the oldest value is the last arriving one and vice versa.
+func newProcessor(inSchema, outSchema record.Schemas, exprOpt []hybridqp.ExprOptions, descending bool) (CoProcessor, bool, bool) {
 	var (
 		initColMata bool
 		callCount   int
@@ -59,10 +61,18 @@ func newProcessor(inSchema, outSchema record.Schemas, exprOpt []hybridqp.ExprOpt
 			case "sum":
 				coProcessor.AppendRoutine(newSumRoutineImpl(inSchema, outSchema, exprOpt[i], auxProcessors))
 			case "first":
-				coProcessor.AppendRoutine(newFirstRoutineImpl(inSchema, outSchema, exprOpt[i], auxProcessors))
+				if descending {
+					coProcessor.AppendRoutine(newLastRoutineImpl(inSchema, outSchema, exprOpt[i], auxProcessors))
+				} else {
+					coProcessor.AppendRoutine(newFirstRoutineImpl(inSchema, outSchema, exprOpt[i], auxProcessors))
+				}
 				initColMata = true
 			case "last":
-				coProcessor.AppendRoutine(newLastRoutineImpl(inSchema, outSchema, exprOpt[i], auxProcessors))
+				if descending {
+					coProcessor.AppendRoutine(newFirstRoutineImpl(inSchema, outSchema, exprOpt[i], auxProcessors))
+				} else {
+					coProcessor.AppendRoutine(newLastRoutineImpl(inSchema, outSchema, exprOpt[i], auxProcessors))
+				}
 				initColMata = true
 			case "min":
 				coProcessor.AppendRoutine(newMinRoutineImpl(inSchema, outSchema, exprOpt[i], auxProcessors))
